@@ -15,7 +15,7 @@ RULE = ('constraint templates: 1-2 fields on attributes / child elements / mixed
         'the reference knows selected nodes and field tuples without any XPath; libxml2 arbitrates; a case = (template, '
         'table); distinct non-trivial = distinct (template, canonical table) with at least one duplicate, missing field or '
         'dangling reference')
-RULE += (' ' + 'The ID / IDREF shard also puts xs:ID, xs:IDREF and xs:IDREFS in element content, with forward references; XSD 1.0 binds such an ID to the element, XSD 1.1 to its parent.')
+RULE += (' ' + 'Shard recursive: a key and keyref declared on an element that contains itself, every instance a scope of its own. The ID / IDREF shard also puts xs:ID, xs:IDREF and xs:IDREFS in element content, with forward references; XSD 1.0 binds such an ID to the element, XSD 1.1 to its parent.')
 ASSUMPTIONS = [
     'qualified node set = selected nodes for which every field evaluates to a value; incomplete unique / keyref tuples are not errors, an incomplete key tuple is',
     'values are compared in the value space of the declared field type (1 = 01 = +1, 1.0 = 1, true = 1)',
@@ -196,6 +196,7 @@ def plan(tier, seed):
                       'exhaustive_rows': 2 if tier == 'quick' else 2})
     specs.append({'kind': 'ids', 'n': 300 if tier == 'quick' else 6000})
     specs.append({'kind': 'xsitype', 'n': 150 if tier == 'quick' else 3000})
+    specs.append({'kind': 'recursive', 'n': 400 if tier == 'quick' else 6000})
     return specs
 
 
@@ -431,15 +432,82 @@ def run_xsitype(spec, res):
                           f'{doc[:300]}: library {sorted(got)} reference {sorted(want)} libxml2 valid={arb_valid}')
 
 
+
+RECURSIVE_XSD = f'''<xs:schema xmlns:xs="{XS}">
+<xs:element name="node"><xs:complexType><xs:sequence>
+ <xs:element name="item" minOccurs="0" maxOccurs="unbounded"><xs:complexType><xs:attribute name="k" type="xs:int"/></xs:complexType></xs:element>
+ <xs:element name="ref" minOccurs="0" maxOccurs="unbounded"><xs:complexType><xs:attribute name="to" type="xs:int"/></xs:complexType></xs:element>
+ <xs:element ref="node" minOccurs="0" maxOccurs="unbounded"/>
+ <xs:element name="tail" minOccurs="0" maxOccurs="unbounded"><xs:complexType><xs:attribute name="k" type="xs:int"/></xs:complexType></xs:element>
+</xs:sequence></xs:complexType>
+<xs:key name="ku"><xs:selector xpath="item|tail"/><xs:field xpath="@k"/></xs:key>
+<xs:keyref name="kr" refer="ku"><xs:selector xpath="ref"/><xs:field xpath="@to"/></xs:keyref>
+</xs:element></xs:schema>'''
+
+
+def run_recursive(spec, res):
+    """A declaration that contains itself: every instance of `node` is a scope of its own for the key over its direct
+    item / tail children and for the keyref of its direct ref children, also while an outer instance is still open."""
+    xmlschema = env.activate_repo()
+    from lxml import etree
+    arb = etree.XMLSchema(etree.fromstring(RECURSIVE_XSD.encode()))
+    rng = env.rng_for(PROPERTY, spec['tier'], spec['seed'], 'recursive')
+    for version, cls in (('1.0', xmlschema.XMLSchema10), ('1.1', xmlschema.XMLSchema11)):
+        schema = cls(RECURSIVE_XSD)
+        for n in range(spec['n']):
+            want = []
+
+            def node(depth):
+                keys = []
+                items = [rng.randint(1, 4) for _ in range(rng.randint(0, 3))]
+                refs = [rng.randint(1, 5) for _ in range(rng.choice((0, 0, 1, 2)))]
+                kids = [node(depth + 1) for _ in range(rng.choice((0, 1, 1, 2)) if depth < 3 else 0)]
+                tails = [rng.randint(1, 4) for _ in range(rng.choice((0, 0, 1, 2)))]
+                keys = items + tails
+                for i, k in enumerate(keys):
+                    if k in keys[:i] and keys[:i].count(k) == 1:
+                        want.append(f'duplicated value ({k},)')
+                for r in refs:
+                    if r not in keys:
+                        want.append(f'value ({r},) not found')
+                return ('<node>' + ''.join(f'<item k="{k}"/>' for k in items) + ''.join(f'<ref to="{r}"/>' for r in refs) +
+                        ''.join(kids) + ''.join(f'<tail k="{k}"/>' for k in tails) + '</node>')
+            doc = node(0)
+            got = []
+            for e in schema.iter_errors(doc):
+                r = e.reason or ''
+                got.append(r.split(' for ')[0] if ' for ' in r else r[:60])
+            res.evaluations += 1
+            nested_dup = doc.count('<node>') > 1
+            res.count('recursive:expected_' + ('invalid' if want else 'valid'))
+            if want and nested_dup:
+                res.nontrivial.add(env.h8(doc))
+            # (a dangling value is reported once per scope, however many references carry it: compared as sets;
+            # scopes are not told apart by the reason text, so equal reasons of different scopes fold too)
+            if set(got) == set(want):
+                res.count('agree')
+                continue
+            arb_valid = bool(arb.validate(etree.fromstring(doc.encode())))
+            if (not got) != (not want) and arb_valid == (not got):
+                res.count('disputed_by_arbiter')
+                res.inconclusive_case('arbiter sides with library', doc)
+                continue
+            missed = sorted(set(want) - set(got))
+            spurious = sorted(set(got) - set(want))
+            res.violation('recursive-scope:' + ('missed' if missed else '') + ('+spurious' if spurious else ''),
+                          {'doc': doc, 'version': version, 'recursive': True},
+                          f'{doc}: library {sorted(got)} reference {sorted(want)} libxml2 valid={arb_valid}')
+
+
 def run_shard(spec, res):
-    {'tables': run_tables, 'ids': run_ids, 'xsitype': run_xsitype}[spec['kind']](spec, res)
+    {'tables': run_tables, 'ids': run_ids, 'xsitype': run_xsitype, 'recursive': run_recursive}[spec['kind']](spec, res)
 
 
 def finalize(res, tier):
     c = res.counters
     reasons = []
     for k in ('key:expected_invalid', 'key:expected_valid', 'unique:expected_invalid', 'unique:expected_valid',
-              'ids:expected_invalid', 'ids:expected_valid'):
+              'ids:expected_invalid', 'ids:expected_valid', 'recursive:expected_invalid', 'recursive:expected_valid'):
         if not c.get(k):
             reasons.append(f'tally {k} is empty')
     total = c.get('agree', 0) + 1
